@@ -118,6 +118,9 @@ async fn server(net: Net, seed: u64, v6net: bool, read_only: bool, nq: u64, fat:
         }
     }
     nodes[1].mode = Mode::EchoQuery; // a bootstrap contact that queries us with the transaction id we just used towards it
+    // the node that will be configured as a router has the id nearest to ours: almost every answer about our neighbourhood names it
+    nodes[4].id = my_id;
+    nodes[4].id[19] ^= 1;
     let oracle = Arc::new(Mutex::new(OracleNet::new(nodes)));
     let addrs = oracle.lock().unwrap().addrs();
     net.with(|n| n.faults.max_latency_ms = 300);
